@@ -117,6 +117,7 @@ type FnCtx struct {
 	specWFDone   map[string]bool
 	modDetail    *[]modTarget
 	extGlobals   map[string]bool
+	callRes      map[string][]callSiteRes // callee -> results of each call site, in SSA order
 	results      []Term
 	ghostEnv     map[string]TV
 	occ          map[string]int
@@ -154,6 +155,11 @@ func (c *FnCtx) storeInner(comp Term, ref Term, val Term) (Term, storeDef) {
 	return app("store", base, ref, val), storeDef{base, ref, val}
 }
 
+type callSiteRes struct {
+	res   []Term
+	types []types.Type
+}
+
 type TV struct {
 	T   Term
 	Ty  types.Type
@@ -165,7 +171,7 @@ func (g *Gen) newCtx(fn *ssa.Function) *FnCtx {
 		vals: map[ssa.Value]Term{}, tuples: map[ssa.Value][]Term{}, locs: map[ssa.Value]*Loc{},
 		blocks: map[*ssa.BasicBlock]*BlockVC{}, edges: map[string]*EdgeVC{}, oblByID: map[string]*Oblig{},
 		compSort: map[string]string{}, loops: map[*ssa.BasicBlock]*LoopInfo{}, trusted: map[string]bool{},
-		uncontr: map[string]bool{}, inferredPure: map[string]bool{}, specWFDone: map[string]bool{}, extGlobals: map[string]bool{}, ghostEnv: map[string]TV{}, occ: map[string]int{}, boxDecl: map[string]bool{},
+		uncontr: map[string]bool{}, inferredPure: map[string]bool{}, specWFDone: map[string]bool{}, extGlobals: map[string]bool{}, callRes: map[string][]callSiteRes{}, ghostEnv: map[string]TV{}, occ: map[string]int{}, boxDecl: map[string]bool{},
 		pureDecl: map[string]bool{}, strLits: map[string]Term{}, storeDefs: map[Term]storeDef{}}
 	if fn != nil {
 		c.name = g.fnName(fn)
